@@ -6,22 +6,24 @@ EXTENDS CliffordCircuit, TLC, Json, IOUtils
 Traces == JsonDeserialize(IOEnv.TRACE_FILE)
 VARIABLES tid, l
 Ev == Traces[tid][l]
-EvApp == Ev.op = "app" /\ AppendGate([k |-> Ev.k, a |-> Ev.a, b |-> Ev.b])
-EvQry == /\ Ev.op = "qry" /\ CanQuery /\ UNCHANGED gates
-         /\ Ev.n = CurN /\ Ev.r = QueryR /\ Ev.S = QueryS
-EvApply == /\ Ev.op = "apply" /\ CanQuery /\ UNCHANGED gates
-           /\ Ev.res = ToF2(ApplyResult(FromF2(Ev.p)))
-EvExport == /\ Ev.op = "export" /\ UNCHANGED gates
-            /\ Ev.gates = [i \in 1..Len(gates) |-> <<gates[i].k, gates[i].a, gates[i].b>>]
-EvNumQ == Ev.op = "numq" /\ CanQuery /\ UNCHANGED gates /\ Ev.n = CurN
-Step == EvApp \/ EvQry \/ EvApply \/ EvExport \/ EvNumQ
+\* The verdict on an event is computed ONCE (the tableau of a long history is expensive): StepOK is the enabling condition of
+\* the CliffordCircuit action the event names together with the comparison of the logged result; NewGates is its effect.
+StepOK == CASE Ev.op = "app" -> TRUE
+            [] Ev.op = "qry" -> CanQuery /\ \E T \in {CurT} : Ev.n = NT(T) /\ Ev.r = ToR(T) /\ Ev.S = ToS(T)
+            [] Ev.op = "apply" -> CanQuery /\ Ev.res = ToF2(ApplyResult(FromF2(Ev.p)))
+            [] Ev.op = "export" -> Ev.gates = [i \in 1..Len(gates) |-> <<gates[i].k, gates[i].a, gates[i].b>>]
+            [] Ev.op = "numq" -> CanQuery /\ Ev.n = CurN
+            [] OTHER -> FALSE
 Init == tid = 1 /\ l = 1 /\ CCInit /\ TLCSet(1, 0)
-Consume == l <= Len(Traces[tid]) /\ Step /\ l' = l + 1 /\ tid' = tid
+Consume == /\ l <= Len(Traces[tid])
+           /\ \E ok \in {StepOK} :
+                IF ok THEN /\ l' = l + 1 /\ tid' = tid
+                           /\ IF Ev.op = "app" THEN AppendGate([k |-> Ev.k, a |-> Ev.a, b |-> Ev.b]) ELSE UNCHANGED gates
+                ELSE /\ PrintT(<<"REJECT", tid, l, Ev.op>>)
+                     /\ tid < Len(Traces) /\ tid' = tid + 1 /\ l' = 1 /\ gates' = <<>>
 Finish == /\ l = Len(Traces[tid]) + 1 /\ TLCSet(1, TLCGet(1) + 1)
           /\ tid < Len(Traces) /\ tid' = tid + 1 /\ l' = 1 /\ gates' = <<>>
-Stuck == /\ l <= Len(Traces[tid]) /\ ~ENABLED Step /\ PrintT(<<"REJECT", tid, l, Ev.op>>)
-         /\ tid < Len(Traces) /\ tid' = tid + 1 /\ l' = 1 /\ gates' = <<>>
-Next == Consume \/ Finish \/ Stuck
+Next == Consume \/ Finish
 Spec == Init /\ [][Next]_<<tid, l, gates>>
 \* the last trace has no successor state: count it in the postcondition
 LastOK == TLCGet("stats").diameter >= 1
